@@ -17,7 +17,8 @@ import (
 
 func init() { wk.Register("c18", c18) }
 
-var c18Passwords = []string{"password", "p", "пароль", "🔐 pass phrase with spaces", "\x00nul", "a\nb", "ÀÉÎõü", "0", " leading", "trailing ", "very long " + string(bytes.Repeat([]byte("x"), 300))}
+var c18Passwords = []string{string(bytes.Repeat([]byte("long password "), 80)), string(bytes.Repeat([]byte("\u6f22"), 400)), string(bytes.Repeat([]byte("p"), 1024)), string(bytes.Repeat([]byte("p"), 1025)), string(bytes.Repeat([]byte("q"), 5000)),
+	"password", "p", "пароль", "🔐 pass phrase with spaces", "\x00nul", "a\nb", "ÀÉÎõü", "0", " leading", "trailing ", "very long " + string(bytes.Repeat([]byte("x"), 300))}
 
 // scriptedReader replaces crypto/rand.Reader: the next 256-byte draw returns `next` if set.
 type scriptedReader struct {
@@ -134,9 +135,10 @@ func c18case(c *wk.Ctx, idx int, r *mrand.Rand, k int, p *big.Int) {
 	corner := []string{"none", "B-leading-zero", "A-leading-zero", "S-leading-zero"}[k%4]
 	b := new(big.Int).SetBytes(rbytes(r, 256))
 	srv.SetB(b)
+	highNext := corner == "B-leading-zero" && k%8 == 1 // ... and the byte after the zero is above the first byte of p
 	if corner == "B-leading-zero" {
-		for tries := 0; tries < 4000; tries++ {
-			if srpsrv.Pad(srv.B.Bytes())[0] == 0 && srv.B.Sign() > 0 && len(srv.B.Bytes()) >= 248 {
+		for tries := 0; tries < 40000; tries++ {
+			if pb := srpsrv.Pad(srv.B.Bytes()); pb[0] == 0 && srv.B.Sign() > 0 && len(srv.B.Bytes()) >= 248 && (!highNext || pb[1] > p.Bytes()[0]) {
 				break
 			}
 			b.Add(b, big.NewInt(1))
@@ -144,8 +146,8 @@ func c18case(c *wk.Ctx, idx int, r *mrand.Rand, k int, p *big.Int) {
 		}
 	}
 	Bbytes := srpsrv.Pad(srv.B.Bytes())
-	if r.Intn(3) == 0 {
-		Bbytes = srv.B.Bytes() // servers may send B without left padding (short B is a don't-care for refusal, but if answered it must verify)
+	if r.Intn(3) == 0 || highNext {
+		Bbytes = srv.B.Bytes() // servers may send B without left padding
 	}
 	ap := &telegram.AccountPassword{
 		HasPassword: true,
@@ -182,8 +184,13 @@ func c18case(c *wk.Ctx, idx int, r *mrand.Rand, k int, p *big.Int) {
 		return
 	}
 	if err != nil {
+		if len(Bbytes) < 248 {
+			c.Count("short_B_refused", 1) // below 2^(2048-64): out of range by the client's own rule; refusal is fine
+			return
+		}
 		if len(Bbytes) < 256 {
-			c.Count("short_B_refused", 1) // don't-care
+			// 0 < B < p, sent without its leading zero byte(s): the same in-range number
+			c.Viol("C18", idx, "error-on-valid-input/B-without-leading-zero", fmt.Sprintf("B = %x… (%d bytes, in range) is refused: %v", Bbytes[:4], len(Bbytes), err), pw)
 			return
 		}
 		c.Viol("C18", idx, "error-on-valid-input", err.Error(), pw)
